@@ -63,6 +63,7 @@ struct Shared {
     bases: u64,
     saves: u64,
     prefixes_total: u64,
+    ac_prefixes: u64,
     samples: Vec<(u64, Plan)>,
 }
 
@@ -208,6 +209,24 @@ fn variants_for(env: &Env, base: &Plan, words: &[String], j: usize, len: usize, 
             }
         }
     }
+    // the user's auto-correct list is written by its editor, not by the engine, and an
+    // interrupted save of it leaves any byte prefix behind (also one that ends inside a
+    // multi-byte character): every prefix of a two-entry document whose first entry is for
+    // the word typed afterwards, read at start-up and by a reload on the live context
+    if with_corpus {
+        if let Some(core) = words.first().map(|w| w.chars().filter(|c| c.is_ascii_alphabetic()).collect::<String>()).filter(|c| !c.is_empty()) {
+            let doc = format!("{{{}:{},\"zq\":\"b`\"}}", serde_json::json!(core), serde_json::json!("\u{09B8}\u{09BE}r"));
+            let bytes = doc.as_bytes();
+            for k in 0..=bytes.len() {
+                let cut: String = bytes[..k].iter().map(|b| format!("{:02x}", b)).collect();
+                out.push(mk(vec![], vec![Op::SetFile { file: FileId::Autocorrect, st: FileSt::Hex(cut.clone()), mt: Mt::Now }, Op::Restart { h }]));
+                out.push(mk(
+                    vec![],
+                    vec![Op::Clock { dt: 1_000_000_000 }, Op::SetFile { file: FileId::Autocorrect, st: FileSt::Hex(cut), mt: Mt::Now }, Op::Update { h, cfg: spawn_cfg(base) }],
+                ));
+            }
+        }
+    }
     // directory gone / read-only around the save
     out.push(mk(vec![Op::SetDir { st: crate::disk::DirState::Missing }], vec![Op::Restart { h }, Op::Heal]));
     out.push(mk(vec![Op::SetDir { st: crate::disk::DirState::ReadOnly }], vec![Op::Restart { h }, Op::Heal]));
@@ -236,6 +255,7 @@ pub fn run_enumeration(env: &Arc<Env>, known: &Arc<KnownFindings>, cfg: &BatchCf
         bases: 0,
         saves: 0,
         prefixes_total: 0,
+        ac_prefixes: 0,
         samples: Vec::new(),
     }));
     let stop = Arc::new(AtomicBool::new(false));
@@ -279,7 +299,18 @@ pub fn run_enumeration(env: &Arc<Env>, known: &Arc<KnownFindings>, cfg: &BatchCf
                             mine.push((i, p));
                         }
                     }
+                    // byte prefixes of the auto-correct document: one Restart variant per prefix
+                    let n_ac = mine
+                        .iter()
+                        .filter(|(_, p)| {
+                            p.ops.windows(2).any(|w| {
+                                matches!(&w[0], Op::SetFile { file: FileId::Autocorrect, st: FileSt::Hex(_), .. }) && matches!(&w[1], Op::Restart { .. })
+                            })
+                        })
+                        .count() as u64;
+                    let n_ac = n_ac.saturating_sub(2 * (saves.len().min(1) as u64)); // the two hex documents of the corpus
                     let mut s = shared.lock().unwrap();
+                    s.ac_prefixes += n_ac;
                     s.bases += 1;
                     s.saves += saves.len() as u64;
                     s.prefixes_total += n_pref;
@@ -406,9 +437,9 @@ pub fn run_enumeration(env: &Arc<Env>, known: &Arc<KnownFindings>, cfg: &BatchCf
     };
     let ex = EvidenceExtra {
         level: "fault_enumeration",
-        rule: "two parts. (1) seeded sampling: 1-2 hosts, the editor, the fault injector and the clock, faults armed right before the commit / restart / spawn / update they should bite, swarm-selected fault kinds. (2) enumeration: for each seeded fault-free base history and each save the engine performs in it: one variant per byte offset k in [0,len] of that save torn by a crash (+ restart), torn + a second host arriving, six failing-save kinds (live context continues, with and without restart), every document of the malformed / wrong-shape / empty-string corpus planted in either user file (+ restart or reload), directory missing / read-only, power loss before flush; each followed by a continuation that retypes every learned word bare and suffixed, learns again, restarts and retypes. A case is one variant; states are distinct by the hash under distinct_states_measure".to_string(),
+        rule: "two parts. (1) seeded sampling: 1-2 hosts, the editor, the fault injector and the clock, faults armed right before the commit / restart / spawn / update they should bite, swarm-selected fault kinds. (2) enumeration: for each seeded fault-free base history and each save the engine performs in it: one variant per byte offset k in [0,len] of that save torn by a crash (+ restart), torn + a second host arriving, six failing-save kinds (live context continues, with and without restart), every document of the malformed / wrong-shape / empty-string corpus planted in either user file (+ restart or reload), every byte prefix of a two-entry user auto-correct document for the word typed next (+ restart, and + reload on the live context), directory missing / read-only, power loss before flush; each followed by a continuation that retypes every learned word bare and suffixed, learns again, restarts and retypes. A case is one variant; states are distinct by the hash under distinct_states_measure".to_string(),
         assumptions: vec![
-            "exhaustive over the byte prefixes of the stores written in the base histories of this run, not over all stores".into(),
+            "exhaustive over the byte prefixes of the stores written in the base histories of this run and of one auto-correct document per base history, not over all documents".into(),
             "SimDisk models std::fs::write as open(O_TRUNC) + write_all".into(),
             "mid-read EIO after a successful open is not injected".into(),
         ],
@@ -416,6 +447,7 @@ pub fn run_enumeration(env: &Arc<Env>, known: &Arc<KnownFindings>, cfg: &BatchCf
             "base_histories": s.bases,
             "saves_enumerated": s.saves,
             "byte_prefixes_enumerated": s.prefixes_total,
+            "autocorrect_byte_prefixes_enumerated": s.ac_prefixes,
             "variants_executed": s.variants,
             "sampled_runs": sampled_runs,
             "sampled_evaluations": sampled_evaluations,
